@@ -133,7 +133,7 @@ def _summ(h):
         raws = [(r.raw_spec.get('method'), r.raw_spec.get('query'),
                  r.status if r.kind == 'http' else
                  ('accepted' if r.ws.accepted else 'refused'),
-                 r.t_issue, r.query)
+                 r.t_issue, r.query, r.t_done)
                 for r in c.raws]
         out[c.idx] = {'events': evs, 'msgs': msgs, 'raws': raws,
                       'sid': c.sid, 'causes': {
@@ -314,6 +314,18 @@ def run(plan, sched_values=None, sched_seed=0):
                 # a websocket-shaped request that names the polling
                 # transport: how an HTTP answer is rendered on a websocket
                 # request is the gateway driver's business
+                continue
+            # a read that is still pending when the session ends competes
+            # with the session's other pending reads for the last packets;
+            # which of them is served and which runs into its time-out is a
+            # tie between readers
+            ends = [t for _r, t in da + db]
+            if ra[0] == 'GET' and ra[2] != rb[2] and any(
+                    ra[3] < te and max(x for x in (ra[5], rb[5], te)
+                                       if x is not None) >= te - 4 * TICK
+                    for te in ends):
+                pr['read_pending_at_end'] = pr.get('read_pending_at_end',
+                                                   0) + 1
                 continue
             if ra[2] != rb[2] and not _near_end(ra[3], da, db, causes) and \
                     not any(_between_ends(ra[3], DA[i], DB.get(i, []))
